@@ -110,7 +110,21 @@ func aliveScenarios(tier string) []*simScenario {
 	late.Crashes = 0
 	late.Final = "shutdown"
 	late.MaxDev = dev - 2
-	out := []*simScenario{late, scenStress(dev)}
+	// nodes that hold only their identity, bootstrapped through ChangeConfig while vote requests cross (D16)
+	boot := &simScenario{
+		Name:   "alive-bootstrap",
+		Opt:    worldOpt{Nodes: 2, EagerFSM: true, EagerLU: true, EagerConnect: true},
+		Menu:   simMenu{OrderCost: true, Timeouts: true, MaxTerm: 3, Admin: []string{"bootstrap"}, MaxAdmin: 2},
+		MaxDev: dev,
+		Final:  "shutdown",
+	}
+	// snapshot + compaction on a leader whose followers are all caught up, then more entries (D11)
+	full := scenSnap(snapSeeds[snapSeedIndex("full")], dev-1, false, true, 1)
+	full.Name = "alive-" + full.Name
+	full.Final = "shutdown"
+	full.Menu = simMenu{OrderCost: true, Snapshots: true, MaxSnaps: 1, Clients: []string{"update"}, MaxUpdates: 1, ClientNodes: []int{0}, Drops: true}
+	full.Crashes = 0
+	out := []*simScenario{late, boot, full, scenStress(dev)}
 	for _, b := range []*simScenario{
 		scenSnap(snapSeeds[snapSeedIndex("lagging")], dev, false, true, 2),
 		scenMember(memberSeedByName("3v"), dev, 2, 0, true, nil, 1),
@@ -132,6 +146,11 @@ func infoScenarios(tier string) []*simScenario {
 		dev = 3
 	}
 	var out []*simScenario
+	// a delayed InstallSnapshot request arriving after a newer installation and further commits (D7)
+	net := scenSnap(snapSeeds[snapSeedIndex("lagging")], dev, true, false, 0)
+	net.Name = "info-snap-lagging-net"
+	net.Menu = simMenu{Drops: true, Clients: []string{"update"}, MaxUpdates: 1, ClientNodes: []int{0}}
+	out = append(out, net)
 	for _, b := range []*simScenario{
 		scenMember(memberSeedByName("phantom-config"), dev, 1, 0, false, nil, 0),
 		scenRepl(replSeedByName("divergent"), dev, false, 1, 1, 4),
